@@ -22,7 +22,7 @@ ASSUMPTIONS = ["exact rational arithmetic (fractions) for all predicates", "quer
 FLOORS = {'quick': {'ray-status': 1500, 'ray-params': 500, 'is_left': 1500, 'wn_poly': 5000, 'hull': 300, 'voxel-fill': 1500,
                     'voxel-cover': 500, 'find_ctrlpts': 300},
           'thorough': {'ray-status': 15000, 'wn_poly': 50000, 'hull': 3000, 'voxel-fill': 15000}}
-MANDATORY_TAGS = ['ray:cross2d', 'ray:cross3d', 'ray:parallel', 'ray:coincident', 'ray:skew', 'vox:planar-axis-aligned', 'vox:padding', 'ray:near-parallel', 'is_left:near-collinear', 'hull:float-near-collinear', 'ray:generic-cross2d', 'ray:generic-cross3d', 'ray:coords<=1000', 'ray:scale=2^-24', 'ray:scale=2^20', 'poly:star', 'poly:orthogonal',
+MANDATORY_TAGS = ['vox:lattice', 'vox:padding=0.0', 'ray:cross2d', 'ray:cross3d', 'ray:parallel', 'ray:coincident', 'ray:skew', 'vox:planar-axis-aligned', 'vox:padding', 'ray:near-parallel', 'is_left:near-collinear', 'hull:float-near-collinear', 'ray:generic-cross2d', 'ray:generic-cross3d', 'ray:coords<=1000', 'ray:scale=2^-24', 'ray:scale=2^20', 'poly:star', 'poly:orthogonal',
                   'poly:cw', 'poly:ccw', 'hull:collinear', 'vox:surface', 'vox:volume', 'vox:cubes', 'find:unnormalized']
 TECHNIQUE = ("runtime monitoring: exact-arithmetic oracles (orientation, crossing parity, definitional hull test, exact line "
              "intersection, point-in-box) on every predicate / query call of a constructed-class workload")
@@ -41,12 +41,65 @@ def gen(rng, tier, shard, nshards):
             yield {'kind': 'voxel', 'seed': rng.randrange(1 << 30)}
         if i % 4 == 1:
             yield {'kind': 'voxel-container', 'seed': rng.randrange(1 << 30)}
+        if i % 4 == 3:
+            yield {'kind': 'voxel-lattice', 'seed': rng.randrange(1 << 30)}
         if i % 3 == 0:
             yield {'kind': 'find_ctrlpts', 'seed': rng.randrange(1 << 30)}
 
 
+def check_voxel_lattice(case, ctx):
+    """a bilinear patch whose samples fall on an integer lattice, voxelised on that lattice with an explicit padding (0.0, 0.25, the default):
+    every coordinate is exact, so the filled flags are decided exactly - a sampled point lies in the voxel [m, m + step) padded by `padding`
+    on both sides, lower face included"""
+    from geomdl import BSpline, voxelize
+    rng = random.Random(case['seed'])
+    n = rng.choice([3, 3, 5])                    # samples per direction; corner coordinates are multiples of (n - 1)^2: samples are integers
+    k = n - 1
+    a_, b_ = rng.randint(1, 2), rng.randint(1, 2)
+    zs = [float(k * k * rng.randint(0, 2)) for _ in range(4)]
+    if len(set(zs)) == 1:
+        zs[rng.randrange(4)] += float(k * k)
+    # control points in library order (v fastest): (u0,v0), (u0,v1), (u1,v0), (u1,v1)
+    corners = [[0.0, 0.0, zs[0]], [0.0, float(k * a_), zs[1]], [float(k * b_), 0.0, zs[2]], [float(k * b_), float(k * a_), zs[3]]]
+    if rng.random() < 0.5:
+        corners = [[p_[2], p_[0], p_[1]] for p_ in corners]      # another axis carries the height
+    s = BSpline.Surface()
+    s.degree_u = s.degree_v = 1
+    s.set_ctrlpts(corners, 2, 2)
+    s.knotvector_u = s.knotvector_v = [0.0, 0.0, 1.0, 1.0]
+    s.sample_size = n
+    pts = [list(p) for p in s.evalpts]
+    bb = s.bbox
+    ext = [bb[1][i] - bb[0][i] for i in range(3)]
+    if any(e == 0.0 for e in ext) or any(c != round(c) for p in pts for c in p):
+        raise Reject()
+    gs = tuple(int(e) + 1 for e in ext)          # step 1.0 per axis: voxel m covers [m, m + 1)
+    if any(g < 2 for g in gs):
+        raise Reject()
+    pad = rng.choice([0.0, 0.0, 0, 0.25, None])
+    ctx.tag('vox:lattice', 'vox:padding=%r' % (pad,))
+    kw = {} if pad is None else {'padding': pad}
+    grid, filled = voxelize.voxelize(s, grid_size=gs, **kw)
+    tolp = F(1, 10 ** 7) if pad is None else F(pad)
+    if not ctx.check(len(grid) == gs[0] * gs[1] * gs[2] and len(filled) == len(grid), 'voxel/grid-count', 'lattice patch: %d voxels for grid_size %r'
+                     % (len(grid), gs), what='voxel-cover'):
+        return
+    bad = []
+    for i, v in enumerate(grid):
+        lo = [F(c) - tolp for c in v[0]]
+        hi = [F(c) + tolp for c in v[1]]
+        exp = any(all(lo[a] <= F(p[a]) < hi[a] for a in range(3)) for p in pts)
+        if bool(filled[i]) != exp:
+            bad.append((i, v[0], bool(filled[i]), exp))
+    ctx.check(not bad, 'voxel/lattice-fill', 'voxelize(grid_size=%r, padding=%r) of a patch whose samples are lattice points: %d of %d voxels have '
+              'the wrong filled flag, first: voxel %r at %r is %r, exact arithmetic says %r' %
+              ((gs, pad, len(bad), len(grid)) + (bad[0] if bad else (None,) * 4)), what='voxel-fill')
+
+
 def check(case, ctx):
     ctx.nontriv(True)
+    if case['kind'] == 'voxel-lattice':
+        return check_voxel_lattice(case, ctx)
     return {'rays': check_rays, 'rays-generic': check_rays_generic, 'voxel-container': check_voxel_container, 'poly': check_poly, 'hull': check_hull, 'voxel': check_voxel,
             'find_ctrlpts': check_find}[case['kind']](case, ctx)
 
